@@ -367,7 +367,8 @@ def run_seq(part, seq, verbose=False):
     replay = {'part': 'c', 'seq': seq}
     hist = list()
     obs  = list()
-    prev = {'map': dict(), 'proc': dict()}   # differences already reported
+    prev = {'map': dict(), 'proc': dict(),   # differences already reported
+            'stdout': sys.stdout, 'stderr': sys.stderr}
 
     def viol(clause, site, trigger, what):
         part.violation('%s|%s|%s' % (clause, site, trigger),
@@ -392,7 +393,7 @@ def run_seq(part, seq, verbose=False):
                 try:
                     out, err, ret, val, exc = res
                 except Exception:
-                    viol('report-shape', site, name,
+                    viol('report-shape', site, 'any',
                          'dispatcher returned %r' % (res,))
                     out, err, ret, val, exc = None, None, None, None, (None,
                                                                       None)
@@ -402,39 +403,39 @@ def run_seq(part, seq, verbose=False):
                                              if e0 else None)
                 if exp['ok'] is True:
                     if not (isinstance(ret, int) and ret == 0) or e0:
-                        viol('exit-code', site, '%s:succeeds' % name,
+                        viol('exit-code', site, 'failure-reported-for-success',
                              '%s succeeded but reports ret=%r exc=%r err=%r'
                              % (spec_name(spec), ret, exc, err))
                     else:
                         if spec['mode'] not in ('proc', 'shell') and \
                            not exp.get('anyval') and val != exp['val']:
-                            viol('return-value', site, name,
+                            viol('return-value', site, 'value',
                                  '%s: value %r, expected %r'
                                  % (spec_name(spec), val, exp['val']))
                         if out != exp['out']:
-                            viol('captured-stdout', site, name,
+                            viol('captured-stdout', site, 'printed',
                                  '%s: stdout %r, expected %r'
                                  % (spec_name(spec), out, exp['out']))
                         if err != exp['err']:
-                            viol('captured-stderr', site, name,
+                            viol('captured-stderr', site, 'printed',
                                  '%s: stderr %r, expected %r'
                                  % (spec_name(spec), err, exp['err']))
                 elif exp['ok'] is False:
                     if not isinstance(ret, int) or isinstance(ret, bool) \
                        or ret == 0:
-                        viol('exit-code', site, '%s:fails' % name,
+                        viol('exit-code', site, 'success-reported-for-failure',
                              '%s failed but reports ret=%r (exc=%r)'
                              % (spec_name(spec), ret, exc))
                     if exp.get('exc'):
                         if not e0 or any(x not in str(e0) for x in exp['exc']):
-                            viol('exception-reported', site, name,
+                            viol('exception-reported', site, 'raises',
                                  '%s raised %s but reports exc=%r'
                                  % (spec_name(spec), exp['exc'], exc))
                 else:
                     # the payload left the interpreter: whatever is reported,
                     # it must not look like success
                     if isinstance(ret, int) and ret == 0 and not e0:
-                        viol('exit-code', site, '%s:fails' % name,
+                        viol('exit-code', site, 'success-reported-for-failure',
                              '%s did not complete but reports success'
                              % spec_name(spec))
             hist.append('%s -> %s' % (spec_name(spec), o))
@@ -469,14 +470,20 @@ def run_seq(part, seq, verbose=False):
                     raise RuntimeError('libc environ and child disagree: %s %s'
                                        % (d_proc, seen))
                 obs[-1] += ',procenv:%s' % ','.join(sorted(d_proc))
-            if now.stdout is not ref.stdout:
-                viol('stdout-restored', site, name,
+            strig = 'stream-replaced-by-payload' if 'repl' in name else \
+                    'payload-leaves-interpreter' if name == 'sys-exit' else \
+                    'any-payload'
+            if now.stdout is not ref.stdout and \
+               now.stdout is not prev['stdout']:
+                viol('stdout-restored', site, strig,
                      'sys.stdout after %s is %r' % (spec_name(spec),
                                                     now.stdout))
-            if now.stderr is not ref.stderr:
-                viol('stderr-restored', site, name,
+            if now.stderr is not ref.stderr and \
+               now.stderr is not prev['stderr']:
+                viol('stderr-restored', site, strig,
                      'sys.stderr after %s is %r' % (spec_name(spec),
                                                     now.stderr))
+            prev['stdout'], prev['stderr'] = now.stdout, now.stderr
             if os.getcwd() != cwd0:
                 os.chdir(cwd0)
 
